@@ -273,6 +273,7 @@ def execute(plan, keep_log=False):
 
 def _run_steps(plan, sc, res, log, kern, objs_cfg, n_obj, refs, objs, last, built, hist, reference, obj):
     import numpy
+    held = []
     for si, st in enumerate(plan["steps"]):
         o = st["obj"] % n_obj
         op = st["op"]
@@ -282,6 +283,7 @@ def _run_steps(plan, sc, res, log, kern, objs_cfg, n_obj, refs, objs, last, buil
             hist[o] = []
             last.pop(o, None)
             built.pop(o, None)
+            held[:] = [h_ for h_ in held if h_[0] != o]
             log.add(si, "new", o)
             res.count("op.new")
             continue
@@ -318,6 +320,7 @@ def _run_steps(plan, sc, res, log, kern, objs_cfg, n_obj, refs, objs, last, buil
             built.pop(o, None)
             last.pop(o, None)
             hist[o] = []
+            held[:] = [h_ for h_ in held if h_[0] != o]
             res.count("op.reconfig")
             log.add(si, "reconfig", o, key)
             continue
@@ -411,6 +414,16 @@ def _run_steps(plan, sc, res, log, kern, objs_cfg, n_obj, refs, objs, last, buil
                         "object %d threads=%d history=%s: differs from an earlier build of the same object" % (o, k_threads, hist[o]), si)
         built[o] = outcome[1]
         last[o] = outcome[2]
+        # matrices handed out by earlier builds belong to the caller: a later build must not have written into them
+        # (the shipped test compares the first returned matrix with the second one in exactly this way)
+        for (o2, si2, arr2, b2) in list(held):
+            if o2 == o and _mbytes(arr2) != b2:
+                res.violate("differs", "C03:matrix-returned-by-an-earlier-build-was-overwritten",
+                            "object %d: the matrix returned by the build at step %d no longer holds what it held then, after the build "
+                            "with threads=%d at step %d" % (o, si2, k_threads, si), si)
+                held.remove((o2, si2, arr2, b2))
+        if len(held) < 12:
+            held.append((o, si, outcome[2], outcome[1]))
         if len(hist[o]) >= 2 and any(x == 1 for x in hist[o]) and any(x > 1 for x in hist[o]):
             res.sig("hist", _hist_sig(hist[o]))
 
